@@ -80,6 +80,34 @@ def hostile_binary(rng):
     big = [0x28] + [0x7F] + [0xFF] * 7
     imp = [0x84, 0x81, 0x61, 0x85, 0x21, 0x01, 0x88] + big
     docs.append(BVM + lst([(6, [0xBE] + iongen.varuint(2 * (1 + len(imp))) + ([0xDE, 0x80 | len(imp)] + imp)[:0] + [0xD0 | 0x0E, 0x80 | len(imp)] + imp + [0xDE, 0x80 | len(imp)] + imp)]) + [0x71, 0x08])
+    # container / scalar lengths just below 2^64 and around 2^63, 2^32, 2^31 (10-byte and shorter VarUInts)
+    for t in (0x2, 0x8, 0x9, 0xB, 0xC, 0xD, 0xE):
+        for base in (1 << 64, 1 << 63, 1 << 32, 1 << 31):
+            for k in list(range(1, 24)) + [100, 4096]:
+                v = base - k
+                if 0 < v < (1 << 64):
+                    g = [v & 0x7F]
+                    v >>= 7
+                    while v:
+                        g.insert(0, v & 0x7F)
+                        v >>= 7
+                    g[-1] |= 0x80
+                    docs.append(BVM + [t << 4 | 0x0E] + g + [0x21, 0x01, 0x21, 0x02])
+    # decimal and timestamp-fraction exponents over the whole int32 range and beyond
+    exps = set()
+    for k in range(3, 34):
+        for d in (-1, 0, 1):
+            for m in (1, 3):
+                exps.add(m * (1 << k) + d)
+    exps |= {715827892, 1431655774, 1000000000, 2147483647, 2147483648, 99999, 20, 21, 30}
+    for e in sorted(exps):
+        for sign in (1, -1):
+            ev = iongen.varint(sign * e)
+            for coef in ([0x01], []):
+                body = ev + coef
+                docs.append(BVM + ([0x50 | len(body)] if len(body) < 14 else [0x5E] + iongen.varuint(len(body))) + body)
+                tb = [0x80, 0x0F, 0xD0, 0x81, 0x81, 0x80, 0x80, 0x80] + ev + coef
+                docs.append(BVM + ([0x60 | len(tb)] if len(tb) < 14 else [0x6E] + iongen.varuint(len(tb))) + tb)
     # deep nesting
     for depth in (1000, 20000):
         d = [0x20]
@@ -94,6 +122,7 @@ def hostile_binary(rng):
 def run(ctx):
     rng = ctx.rng
     bins = hostile_binary(rng)
+    n_hostile = len(bins)
     forests = binlib.gen_forests(ctx, ctx.scale(300, 5000), {"depth": 3})
     for d in binlib.encode_docs(ctx, forests, True):
         for _ in range(6):
@@ -127,7 +156,11 @@ def run(ctx):
                             oracle=bad_outcome, classify=classify_case)
     # 2. the other entry points, real code only
     others = []
-    for b in bins[: ctx.scale(2500, 60000)] + [list(t) for t in texts]:
+    def some(n):
+        """every constructed hostile document plus a sample of the mutated ones"""
+        rest = bins[n_hostile:]
+        return bins[:n_hostile] + (rng.sample(rest, n) if len(rest) > n else rest)
+    for b in some(ctx.scale(2500, 60000)) + [list(t) for t in texts]:
         h = iongen.hx(b)
         others.append("decany 0 " + h)
         others.append("unm %s %s" % (rng.choice(TARGETS), h))
@@ -136,11 +169,30 @@ def run(ctx):
         others.append("btrav 0 " + iongen.hx(t))
     # random navigation programs on hostile inputs
     progs = []
-    for b in bins[: ctx.scale(1500, 30000)]:
+    for b in bins[:n_hostile]:
+        for p in (["N", "SI", "N", "ER", "SO", "N"], ["N", "SI", "SO", "ER", "N"], ["N", "TS", "DE", "N", "ER"]):
+            progs.append("brd 0 %s %s" % (iongen.hx(b), " ".join(p)))
+    for b in some(ctx.scale(1500, 30000))[n_hostile:]:
         p = [rng.choice(cursor.OPS + ["N", "N", "SI", "SO", "SZ"]) for _ in range(rng.choice([5, 15, 40]))]
         progs.append("brd 0 %s %s" % (iongen.hx(b), " ".join(p)))
     mo2, go2 = ctx.correspond("K2-binreader-hostile-programs", progs, canon=binlib.canon_trace_full,
                               nontrivial=lambda ln, m: True, oracle=bad_outcome, classify=classify_case)
+    # text: skip / step-out programs on hostile and truncated text (the skipper is a second grammar)
+    tdocs = [bytes(t) for t in texts if len(t) < 5000]
+    import textgen
+    for f in forests[:ctx.scale(150, 3000)]:
+        try:
+            tx = bytes(textgen.render(f, rng))
+        except Exception:
+            continue
+        tdocs.append(tx)
+        for _ in range(3):
+            tdocs.append(tx[:rng.randint(0, len(tx))])
+    for t in ("[ \'\'\'abc", "{a: \'\'\'x", "( \"abc", "[ {{ \"cl", "[ {{ AAA", "[ /* c", "[[[ \'q", "{a:[ \'\'\'a\'\'\' \'\'\'b", "[1, 2", "(a b", "{a:1,", "[ \'\'\'a\\"):
+        tdocs.append(t.encode())
+    for tx in tdocs:
+        for prog in (["N", "N", "N", "ER"], ["N", "SI", "SO", "N", "ER"], ["N", "SI", "N", "SO", "N", "ER"], ["N", "SI", "N", "N", "SO", "SO", "N"]):
+            others.append("brd 0 %s %s" % (iongen.hx(tx), " ".join(prog)))
     go3 = run_go(others, per_case_timeout=20)
     nbad = 0
     for ln, g in zip(others, go3):
@@ -150,7 +202,7 @@ def run(ctx):
             ctx.fail("property", "C06-entrypoints", ln[:4000], why, classify_case(ln, None, g))
     ctx.count("C06-entrypoints", len(others), others[:2000], bad=nbad, sample=others[1][:120])
     # 3. memory: allocation must follow the input size
-    mem = ["memtrav " + iongen.hx(b) for b in bins[:120] + [list(t) for t in texts]]
+    mem = ["memtrav " + iongen.hx(b) for b in rng.sample(bins[:n_hostile], min(n_hostile, 150)) + bins[n_hostile:n_hostile + 120] + [list(t) for t in texts]]
     # one process per case: heap growth (HeapSys) of a fresh process is the peak the case needed
     gm = [run_go([m], per_case_timeout=60, parallel=False)[0] for m in mem]
     worst = 0
